@@ -67,12 +67,12 @@ rangeset_harness!(
     Ipv4Addr::from(0u32), Ipv4Addr::from(u32::MAX)
 );
 rangeset_harness!(
-    c09_rangeset_v6_n2, 2, 18, Ipv6Addr,
+    c09_rangeset_v6_n2, 2, 5, Ipv6Addr,
     Ipv6Addr::from(kani::any::<u128>()),
     Ipv6Addr::from(0u128), Ipv6Addr::from(u128::MAX)
 );
 rangeset_harness!(
-    c09_rangeset_v6_n3, 3, 18, Ipv6Addr,
+    c09_rangeset_v6_n3, 3, 6, Ipv6Addr,
     Ipv6Addr::from(kani::any::<u128>()),
     Ipv6Addr::from(0u128), Ipv6Addr::from(u128::MAX)
 );
